@@ -284,6 +284,35 @@ def run_transform(R, name, B, L):
     R.sample({"config": name, "B": B, "L": L, "obligations": len(R.obl)})
 
 
+def run_registry_fresh(R):
+    """'a fresh instance with the same configuration gives the same result' through the public factory: jumanji.make(id) builds the same
+    environment (equal specs, bitwise equal reset/step) before and after OTHER make calls that override constructor arguments of the same
+    or of another id (overrides must not leak into the registry)."""
+    import jumanji
+    cases = [("Snake-v1", {"num_rows": 6, "num_cols": 5, "time_limit": 7}), ("Tetris-v0", {"num_rows": 8, "num_cols": 6, "time_limit": 9}),
+             ("Game2048-v1", {"board_size": 3}), ("RubiksCube-partly-scrambled-v0", {"time_limit": 3}), ("Maze-v0", {"time_limit": 5})]
+    R.bound(ids=[c[0] for c in cases])
+    key = jax.random.PRNGKey(3)
+    for env_id, over in cases:
+        try:
+            e0 = jumanji.make(env_id)
+            r0 = jax.tree_util.tree_map(np.asarray, e0.reset(key))
+            jumanji.make(env_id, **over)
+            e1 = jumanji.make(env_id)
+            r1 = jax.tree_util.tree_map(np.asarray, e1.reset(key))
+            same_specs = (e0.observation_spec == e1.observation_spec) and (e0.action_spec == e1.action_spec)
+            a0 = e0.action_spec.generate_value()
+            o0 = jax.tree_util.tree_map(np.asarray, e0.step(e0.reset(key)[0], a0))
+            o1 = jax.tree_util.tree_map(np.asarray, e1.step(e1.reset(key)[0], a0))
+            ok = bool(same_specs) and WC.np_tree_equal(r0, r1) and WC.np_tree_equal(o0, o1) and getattr(e0, "time_limit", None) == getattr(e1, "time_limit", None)
+            det = {"id": env_id, "overrides_of_the_call_in_between": str(over), "specs_equal": bool(same_specs), "reset_differs": WC.diff_fields(r0, r1) if same_specs else "different shapes",
+                   "time_limit": [getattr(e0, "time_limit", None), getattr(e1, "time_limit", None)]}
+        except Exception as e:  # noqa
+            ok, det = False, {"id": env_id, "error": f"{type(e).__name__}: {str(e)[:200]}"}
+        R.validated += 4
+        R.structural(f"make('{env_id}') builds the same environment before and after make('{env_id}', **overrides)", ok, det)
+
+
 TRANSFORM_ENVS = ["Knapsack", "Maze@3x3", "Snake", "Cleaner@3x3x1", "GraphColoring", "TSP", "SlidingTilePuzzle", "Connector", "Minesweeper", "CVRP",
                   "Tetris", "RubiksCube", "LevelBasedForaging", "JobShop", "Sudoku"]
 # minutes each (large batched encodings): thorough tier only
@@ -310,6 +339,7 @@ def jobs(tier, seed):
                 seen.append(str(over))
                 js.append((f"{cls.QUICK[0]}#variant{len(seen)}/ir", "checks.C02", "run_ir", {"name": cls.QUICK[0], "over": over}))
     js.append(("constructor-arguments", "checks.C02", "run_ctor_args", {}))
+    js.append(("registry/fresh-instance", "checks.C02", "run_registry_fresh", {}))
     for n in TRANSFORM_ENVS + (THOROUGH_EXTRA if tier == "thorough" else []):
         js.append((f"{n}/vmap2-scan2", "checks.C02", "run_transform", {"name": n, "B": 2, "L": 2}))
     for n in (TRANSFORM_ENVS[:3] if tier == "quick" else TRANSFORM_ENVS[:12]):
